@@ -6,10 +6,20 @@ From DS Require Import Proofs.MsvProofs Proofs.MsvParts Proofs.MsvGen.
 (* A refused write (any command line answered OUTPUT:BAD) leaves the simulator in exactly the
    state it had with an empty buffer: every later reply, to every query, is the same. *)
 Theorem C05_ms_refused_changes_nothing : forall T (ops : numops T) orc cf s e b s',
-  replies_distinct cf = true ->
+  pt_law ops cf -> replies_distinct cf = true ->
   parse ops orc cf s e b = (s', OReply (c_bad cf ++ crlf)) -> s' = set_msg s [].
 Proof. exact @refused_same_future. Qed.
 Print Assumptions C05_ms_refused_changes_nothing.
+
+(* for the binary64 model of the shipped simulator both hypotheses are discharged (Proofs/MsvGen.v);
+   [pt_law] is the arithmetic fact start + 0 * gap >= now when start >= now, see Properties/C20.v *)
+Theorem C05_ms_refused_changes_nothing_binary64 : forall orc tk s e b s',
+  parse fops orc (fcfg tk) s e b = (s', OReply (c_bad (fcfg tk) ++ crlf)) -> s' = set_msg s [].
+Proof.
+  intros orc tk s e b s'.
+  exact (refused_same_future fops orc (fcfg tk) s e b s' (f_pt_law tk) (gen_replies_distinct F f_of_bits tk)).
+Qed.
+Print Assumptions C05_ms_refused_changes_nothing_binary64.
 
 (* OFFSET acknowledged: the stored offsets are exactly float(token) for each axis ... *)
 Theorem C05_ms_offset_stored : forall T (orc : oracles T) cf s e args s' body,
@@ -19,7 +29,7 @@ Theorem C05_ms_offset_stored : forall T (orc : oracles T) cf s e args s' body,
     floats orc toks = Some xs /\ nth_error (s_servos s) i = Some sv /\
     set_offsets (sv_offs sv) xs = Some offs' /\
     s' = set_last (set_servo s i (mk_servo (sv_mode sv) (sv_future sv) (sv_coords sv) (sv_cmd sv) offs'
-                                           (sv_last sv) (sv_timer sv) (sv_alias sv))) (e_now e).
+                                           (sv_last sv) (sv_timer sv) (sv_alias sv) (sv_trk sv))) (e_now e).
 Proof. exact @h_offset_good. Qed.
 Print Assumptions C05_ms_offset_stored.
 
